@@ -94,8 +94,9 @@ def real_out(c):
             back = pd.read_csv(out)
             w = np.asarray(back.values, dtype=float)
             with np.errstate(all="ignore"):
+                # "%.8f": half a unit of the 8th decimal, plus two ulps of the value itself (a time of 5e7 has no 8th decimal in float64)
                 same = list(back.columns) == list(df.columns) and w.shape == v.shape and bool(
-                    np.all((np.abs(w - v) <= 0.6e-8) | (np.isnan(w) & np.isnan(v)) | (np.isinf(w) & (w == v))))
+                    np.all((np.abs(w - v) <= 0.6e-8 + 4.5e-16 * np.abs(v)) | (np.isnan(w) & np.isnan(v)) | (np.isinf(w) & (w == v))))
             res[4] = same
         return tuple(res)
     except Exception as e:  # noqa: BLE001
